@@ -148,15 +148,18 @@ let () =
               let lg = log s in let core = nlist s in
               b (check_core lg.l_db core)
             | "enc" ->
-              (* U P sevs db calls -> clauses-equal calls-equal [model sizes] *)
+              (* U P sevs db calls trail issat -> clauses-equal calls-equal req-true trail-equal final-ok [model sizes] *)
               let u = universe s in let p = problem s in
               let evs = rep s sev in let db = rep s clause in let calls = rep s pcall in
+              let trail = rep s lit in let issat = next s = 1 in
               let up = table_provider u in
               let fuel = nat_of_int 100000 in
               let (c1, c2) = check_encoder up p fuel evs db calls in
+              let ((f1, f2), f3) = check_encoder_final up p fuel evs trail in
               (match enc_solve up p fuel (estate0 cache0) [] evs with
-               | Some st -> Printf.sprintf "%s %s %d %d" (b c1) (b c2) (List.length st.e_db) (List.length st.e_calls)
-               | None -> "0 0 -1 -1")
+               | Some st -> Printf.sprintf "%s %s %s %s %s %d %d" (b c1) (b c2) (b f1) (b f2) (b (f3 || not issat))
+                              (List.length st.e_db) (List.length st.e_calls)
+               | None -> "0 0 0 0 0 -1 -1")
             | "logsat" ->
               (* U P log sol -> db-ok run-ok sat-ok [first bad clause index | -] *)
               let u = universe s in let p = problem s in let lg = log s in let sol = nlist s in
